@@ -446,3 +446,47 @@ def r7(ctx):
 def r8(ctx):
     from . import c02
     c02.r1(ctx)
+
+
+@rule("C01.R9", "a primitive built from another instance of its type (as Atomic.coerce and comparisons do) carries over every field its encoder reads", floor=9, engines="E0 field sets + E1 facts")
+def r9(ctx):
+    from ..guards import atoms_of_facts
+    prog = ctx.prog
+    m = prog.module(PM)
+    atomic = prog.cls(PM, "Atomic")
+    n = 0
+    for name, c in m.classes.items():
+        if atomic not in prog.mro(c) or "__init__" not in c.methods:
+            continue
+        init = c.methods["__init__"]
+        if len(init.args.args) < 2:
+            continue
+        arg = init.args.args[1].arg
+        found = prog.find_method(c, "encode")
+        if found is None:
+            continue
+        reads = {x.attr for x in ast.walk(found[1]) if is_self_attr(x) and isinstance(x.ctx, ast.Load)}
+        stored = {t.attr for t, s in stores_in(init) if is_self_attr(t)}
+        copy = {}
+        has_arm = False
+        for x in ast.walk(init):
+            if isinstance(x, ast.Call) and norm(x.func) == "isinstance" and len(x.args) == 2 and norm(x.args[0]) == arg and norm(x.args[1]) == name:
+                has_arm = True
+        for t, s in stores_in(init):
+            if is_self_attr(t) and isinstance(s, ast.Assign):
+                for a, pol in atoms_of_facts(facts_at(s)):
+                    if pol and isinstance(a, ast.Call) and norm(a.func) == "isinstance" and len(a.args) == 2 and norm(a.args[0]) == arg and norm(a.args[1]) == name:
+                        copy[t.attr] = s.value
+        if not has_arm:
+            continue
+        n += 1
+        need = sorted(reads & stored)
+        missing = [f for f in need if f not in copy or not any(is_attr_of(v, arg, f) for v in ast.walk(copy[f]))]
+        ctx.check("%s.__init__:copy-carries-encoded-fields" % name, not missing, where(m, init),
+                  "%s(other %s) does not take over %s, which encode() writes to the wire: the copy encodes differently from the original" % (name, name, missing),
+                  facts={"encode_reads": sorted(reads), "copied": sorted(copy)})
+    ctx.count("copy constructors", n)
+
+
+def is_attr_of(node, base, attr):
+    return isinstance(node, ast.Attribute) and node.attr == attr and isinstance(node.value, ast.Name) and node.value.id == base
